@@ -390,10 +390,14 @@ func judgeIndependence(name string, useProto bool) (out []outcome, nontrivial bo
 	if !reflect.DeepEqual(valueOf(a), snapshot) {
 		add("C19:shared-state:"+name, "decoding % x into the second instance changed the first from %#v to %#v", p2, snapshot, valueOf(a))
 	}
-	for i := 0; i < 5; i++ {
+	for i := 0; i < 64; i++ {
 		if d := fresh("later"); d != nil {
 			checkZero(d, "after both decodes, a newly produced instance", "C19:shared-state")
 		}
+	}
+	// a recycling registry would have handed the first instance out again by now
+	if !reflect.DeepEqual(valueOf(a), snapshot) {
+		add("C19:shared-state:"+name, "after 64 further Produce(%q) calls the first instance changed from %#v to %#v", name, snapshot, valueOf(a))
 	}
 	return
 }
@@ -597,6 +601,25 @@ func contains(l []string, s string) bool {
 	return false
 }
 
+// listFresh reports (counted, not judged: the statement speaks of produced values only) whether
+// overwriting the slice one call returned changes what the next call returns.
+func listFresh() string {
+	a := dpt.ListSupportedTypes()
+	keep := append([]string(nil), a...)
+	sort.Strings(keep)
+	for i := range a {
+		a[i] = "scribble"
+	}
+	b := append([]string(nil), dpt.ListSupportedTypes()...)
+	sort.Strings(b)
+	if reflect.DeepEqual(keep, b) {
+		return "yes: overwriting a returned slice does not change the next call's result (reported, not judged)"
+	}
+	// undo, the rest of the check needs the names
+	copy(a, keep)
+	return "NO: the returned slice is shared with the registry - overwriting it changed the next call's result (reported, not judged: the statement speaks of produced values)"
+}
+
 // judgeList: the list is duplicate-free and the same set on every call.
 func judgeList() (out []outcome) {
 	var first []string
@@ -663,6 +686,7 @@ func run(r *enumlib.Run) {
 			r.ViolationWithTest("C19:type-shared-by-names", fmt.Sprintf("names %q all produce %s; a type bears one number", ns, t), caseInput{Op: "name", Name: ns[1]}, nameGoTest(ns[1]))
 		}
 	}
+	r.Extra("list_slice_is_fresh_per_call", listFresh())
 	r.Eval(int64(len(names)))
 	r.Nontrivial(nt)
 	r.Space("listed-names", int64(len(names)), nt, true, "every name of ListSupportedTypes(): form, uniqueness, producible, dynamic type bears the number, one name per type, list stable over 16 calls")
@@ -730,7 +754,7 @@ func run(r *enumlib.Run) {
 	}
 	r.Eval(int64(len(names)))
 	r.Nontrivial(nt)
-	r.Space("independence", int64(len(names)), nt, true, "per registered name: two instances, decode a non-zero payload into the first, the second / a third / five later ones are the zero value, all pointers distinct (and distinct from the prototype), decode into the second leaves the first unchanged")
+	r.Space("independence", int64(len(names)), nt, true, "per registered name: two instances, decode a non-zero payload into the first, the second / a third / 64 later ones are the zero value, all pointers distinct (and distinct from the prototype), decode into the second leaves the first unchanged")
 	if len(names) > 0 {
 		n := names[len(names)/2]
 		r.Sample(map[string]interface{}{"space": "independence", "name": n, "payloads": fmt.Sprintf("% x", payloadsFor(n))})
@@ -764,17 +788,15 @@ func run(r *enumlib.Run) {
 			quickReps = append(quickReps, n)
 		}
 	}
-	for i, n := range quickReps {
-		if len(quickReps) > 1 {
-			quickPairs = append(quickPairs, [2]string{n, quickReps[(i+1)%len(quickReps)]})
-		}
+	for i := 0; i+1 < len(quickReps); i += 2 {
+		quickPairs = append(quickPairs, [2]string{quickReps[i], quickReps[i+1]})
 	}
 	if r.Thorough() {
 		c.interleavings("interleavings-3x2", allPairs, 3, "every registered name a with the next name b")
 		c.interleavings("interleavings-3x2-kinds", kindPairs, 3, "the first name a of every Go kind of datapoint type with the first name b of the next kind")
 	} else {
 		c.interleavings("interleavings-2x2", allPairs, 2, "every registered name a with the next name b")
-		c.interleavings("interleavings-3x2-kinds", quickPairs, 3, "the first name a of the Go kinds bool, float32, string, struct with the first name b of the next of these kinds")
+		c.interleavings("interleavings-3x2-kinds", quickPairs, 3, "the first names of the Go kinds bool, float32, string, struct in the order of the sorted name list, paired two by two")
 	}
 
 	// additional observations: free-running goroutines (child process), race detector (go test -race)
